@@ -82,6 +82,14 @@ static const GraphD g_both = {4, {{1, {DEP("I")}, 1, {"C"}, 0, 2, 0, false, fals
 static const GraphD g_empty_in = {2, {{0, {}, 1, {"X"}, 5, 0, 0, false, false}, {2, {DEP_UNLESS("X", "N"), DEP("N")}, 1, {"T"}, 100, 0, 0, false, false}},
                                   1, {{"N", K_EMPTY, false}}, 1, {"T"}, false};
 
+// a vertex that is activated lazily (its output sits behind a condition) while its own dependency is being published by a
+// vertex that was activated eagerly: activation's countdown races with the readiness notification
+static const GraphD g_lazy = {4, {{1, {DEP("I")}, 1, {"C"}, 0, 2, 0, false, false}, {0, {}, 1, {"E"}, 5, 0, 0, false, false}, {1, {DEP("E")}, 1, {"D"}, 10, 0, 0, false, false}, {2, {DEP_ON("D", "C"), DEP("E")}, 1, {"T"}, 100, 0, 0, false, false}},
+                              1, {{"I", K_VALUE, false}}, 1, {"T"}, false};
+// the same with two dependencies on the lazily activated vertex, one already published, one in flight
+static const GraphD g_lazy2 = {5, {{1, {DEP("I")}, 1, {"C"}, 0, 2, 0, false, false}, {0, {}, 1, {"E"}, 5, 0, 0, false, false}, {0, {}, 1, {"F"}, 6, 0, 0, false, false}, {2, {DEP("E"), DEP("F")}, 1, {"D"}, 10, 0, 0, false, false}, {3, {DEP_ON("D", "C"), DEP("E"), DEP("F")}, 1, {"T"}, 100, 0, 0, false, false}},
+                               1, {{"I", K_VALUE, false}}, 1, {"T"}, false};
+
 // ---- generated family: every dependency shape over a small pool -----------------------------------------------
 // VA: 1 dependency over {I0, I1} -> A (0/1, usable as a condition); VB: 1 dependency over {I0, I1, A} -> B;
 // VC: 2 dependencies over {I0, I1, A, B} -> T. A dependency = (target, none | on c | unless c with c != target, essential?).
@@ -131,6 +139,9 @@ static const Cfg cfgs[] = {
     {"on + unless over one condition, thread pool with 2 workers", &g_both, X_POOL2, 1},
     {"generated: all 3-vertex dependency shapes x inputs, inplace executor, 2 cycles", nullptr, X_INPLACE, 2},
     {"generated: all 3-vertex dependency shapes x inputs, thread per vertex", nullptr, X_THREADS, 1},
+    {"lazily activated vertex whose dependency is in flight, thread per vertex", &g_lazy, X_THREADS, 1},
+    {"lazily activated vertex with two dependencies in flight, thread per vertex", &g_lazy2, X_THREADS, 1},
+    {"lazily activated vertex whose dependency is in flight, thread pool with 2 workers", &g_lazy, X_POOL2, 1},
 };
 // Called in every process before the memory snapshot is taken. babylon's WARNING lines on the error paths would pull
 // lazily initialised state of shared libraries (abseil's time zone tables) into the executions, and that state is
